@@ -24,10 +24,11 @@ def run(ctx):
     F = ctx.F
     res = RuleResult('R-RESTORE', 'emit_wasm restores every field of the module it moves out; the rest is borrowed shared')
     res.floor = 2
-    body = F.mir.get(EW)
-    if body is None:
+    if EW not in F.mir:
         res.error('anchor lost: Module::emit_wasm')
         return res
+    from mirinline import inline_local
+    body = inline_local(F, EW)   # helpers split off emit_wasm are part of it
     c = Cfg(body)
     # &mut borrows of self fields held in locals
     refs = {}
